@@ -381,7 +381,7 @@ func init() {
 	core.Register(&core.Prop{
 		ID:    "C02",
 		Level: "model_checking",
-		Rule: "PAR1 sets written by the reference writer (every status pattern over 4 entries with >= 2 saved ones x one or two saved files deleted / corrupted, comment variants) under the same write oracle; bounded-exhaustive archive states (plus a PAR2 set whose protected files live in sub-directories and share base names with each other and with unrelated files beside the index, all combinations of <=2 operators): PAR2 default sets with ALL combinations of <=3 operators (thorough: additionally all pairs, and for the default set all triples, over the FULL per-offset data menu plus the recovery-file operators) from {data damage menu} U {recovery file replaced by a well-formed file with wrong blocks, payload flip, truncation, emptied, foreign-set recovery file, deleted}, double-check on and off, unrelated files / sub-directory / look-alike names beside the set; " +
+		Rule: "(later rounds added: the decoder protocol search - main and fault alphabet - under the write oracle; a set above 16 KiB with every subset of wrong recovery files; PAR1 names with boundary code points, blanks at either end, dots in a row; staged twins) PAR1 sets written by the reference writer (every status pattern over 4 entries with >= 2 saved ones x one or two saved files deleted / corrupted, comment variants) under the same write oracle; bounded-exhaustive archive states (plus a PAR2 set whose protected files live in sub-directories and share base names with each other and with unrelated files beside the index, all combinations of <=2 operators): PAR2 default sets with ALL combinations of <=3 operators (thorough: additionally all pairs, and for the default set all triples, over the FULL per-offset data menu plus the recovery-file operators) from {data damage menu} U {recovery file replaced by a well-formed file with wrong blocks, payload flip, truncation, emptied, foreign-set recovery file, deleted}, double-check on and off, unrelated files / sub-directory / look-alike names beside the set; " +
 			"PAR1 full product of per-file damage {ok,deleted,changed,truncated,emptied,garbage} x per-volume {ok,deleted,corrupt,foreign,truncated} x double-check; Create on a size grid. " +
 			"Oracle from the recorder: every write during Repair targets a protected path with exactly the protected bytes and is listed in the result; every other directory entry is byte-identical afterwards; Verify performs no write; Create writes only set files and changes nothing else. non-trivial = Repair wrote or failed",
 		Assumptions: []string{"all filesystem access of par1/par2 goes through the fileIO seam (asserted by a source lint in this check)", "a path listed in the result but not written is outside the statement (counted, not alarmed)"},
